@@ -285,7 +285,9 @@ Proof.
                nodisc.
   - (* ELost *) discriminate Hs.
   - (* ENone *)
-    inversion Hs; subst m'; clear Hs. split.
+    destruct (m_wire m) as [g0|] eqn:Eg0; [|discriminate Hs].
+    destruct (g0 <=? first_unserved (m_top m)); [|discriminate Hs].
+    inversion Hs; subst m'; clear Hs. rewrite <- Eg0 in *. split.
     + rewrite last_wire_snoc. exact Hw.
     + rewrite waiting_snoc, Hq. reflexivity.
     + intros g Hi. old_in Hi.
@@ -326,6 +328,37 @@ Proof.
   intros _. exact (mi_line _ _ (mon_run_inv _ _ E)).
 Qed.
 
+(* ---------- the closing clause ---------- *)
+Lemma top_shown_snoc t e : top_shown (t ++ [e]) = top_step (top_shown t) e.
+Proof. unfold top_shown. rewrite fold_left_app. reflexivity. Qed.
+
+Lemma mon_run_topval t : forall m, mon_run mon0 t = Some m -> m_top m = top_shown t.
+Proof.
+  induction t as [|e t IH] using rev_ind; intros m H.
+  - cbn in H. inversion H; subst. reflexivity.
+  - rewrite mon_run_snoc in H. destruct (mon_run mon0 t) as [m1|] eqn:E; [|discriminate H].
+    cbn [mon_bind] in H. rewrite top_shown_snoc, <- (IH m1 eq_refl).
+    destruct e; cbn [mon_step top_step] in *; try (inversion H; subst m; reflexivity).
+    + destruct (_ && _) in H; [|discriminate H]. inversion H; subst m. reflexivity.
+    + destruct (_ && _) in H; [|discriminate H]. inversion H; subst m. reflexivity.
+    + destruct (_ && _) in H; [|discriminate H]. inversion H; subst m. reflexivity.
+    + destruct (m_wire m1); [|discriminate H]. destruct (_ <=? _) in H; [|discriminate H]. inversion H; subst m. reflexivity.
+    + destruct (m_wait m1); [|discriminate H]. inversion H; subst m. reflexivity.
+Qed.
+
+Theorem line_okb_closing t : line_okb t = true -> closing_goaway t.
+Proof.
+  unfold line_okb. intros H a b E. subst t. rewrite mon_run_app in H.
+  destruct (mon_run mon0 a) as [ma|] eqn:Ea; [|discriminate H].
+  cbn [mon_run mon_step] in H.
+  rewrite <- (mi_wire _ _ (mon_run_inv _ _ Ea)), <- (mon_run_topval _ _ Ea).
+  destruct (m_wire ma) as [g|]; [|discriminate H]. exists g. split; [reflexivity|].
+  destruct (g <=? first_unserved (m_top ma)) eqn:C; [lia|discriminate H].
+Qed.
+
+Lemma closing_prefix t e : closing_goaway (t ++ [e]) -> closing_goaway t.
+Proof. intros H a b E. apply (H a (b ++ [e])). rewrite E, <- app_assoc. reflexivity. Qed.
+
 (* ---------- completeness: the monitor accepts every trace that is on the line ---------- *)
 Lemma line_prefix t e : line (t ++ [e]) -> line t.
 Proof.
@@ -355,13 +388,16 @@ Proof.
       * right. reflexivity.
     + destruct (_ && _) in H; [|discriminate H]. inversion H; subst m. left. eapply IH; [reflexivity|exact Ht].
     + discriminate H.
+    + destruct (m_wire m1); [|discriminate H]. destruct (_ <=? _) in H; [|discriminate H].
+      inversion H; subst m. left. eapply IH; [reflexivity|exact Ht].
     + destruct (m_wait m1); [|discriminate H]. inversion H; subst m. left. eapply IH; [reflexivity|exact Ht].
 Qed.
 
-Theorem line_okb_complete t : line t -> line_okb t = true.
+Theorem line_okb_complete t : line t -> closing_goaway t -> line_okb t = true.
 Proof.
-  unfold line_okb. induction t as [|e t IH] using rev_ind; intros Hl; [reflexivity|].
-  pose proof (line_prefix _ _ Hl) as Hlt. specialize (IH Hlt).
+  unfold line_okb. induction t as [|e t IH] using rev_ind; intros Hl Hcl; [reflexivity|].
+  pose proof (line_prefix _ _ Hl) as Hlt. specialize (IH Hlt (closing_prefix _ _ Hcl)).
+  pose proof (fun m H => mon_run_topval t m H) as Htv.
   destruct (mon_run mon0 t) as [m|] eqn:E; [|discriminate IH]. clear IH.
   pose proof (mon_run_inv _ _ E) as [Hw Hq Hmin Htop Hbel _].
   rewrite mon_run_snoc, E. cbn [mon_bind].
@@ -397,6 +433,9 @@ Proof.
     assert (C4 : (g <=? id) = true) by lia. rewrite C4. reflexivity.
   - (* ELost *)
     exfalso. apply (L1 id). apply in_snoc. right. reflexivity.
+  - (* ENone *)
+    destruct (Hcl t [] eq_refl) as (g & Eg & Hle). rewrite Hw, Eg, (Htv m eq_refl).
+    assert (C : (g <=? first_unserved (top_shown t)) = true) by lia. rewrite C. reflexivity.
   - (* EPending *)
     rewrite Hq, (L3 t [] eq_refl). reflexivity.
 Qed.
